@@ -86,12 +86,32 @@ def s2(x, y, z, *, t, w=1.0):
     return np.stack([1.25 + f * np.cos(y), 1.25 + f * np.cos(z) + 0.0 * x, 1.0 + 0.0 * x], axis=1)
 
 
-FUNCS = {f.__name__: f for f in (g0, g1, h0, h1, v0, v1, s0, s1, s2)}
-STATIC = {"2d": ["g0", "g1"], "3d": ["v0", "v1"]}
-TIMED = {"2d": ["h0", "h1"], "3d": ["s0", "s1", "s2"]}
+# twins: the same instruction stream and constants as g0 / h0 / v0 / s1, but other functions are called (different leaves
+# with different values, which only differ in the *names* their code refers to)
+def g0t(x, y, a=1.0):
+    return a + 0.25 * np.cos(x) * np.sin(y)
+
+
+def h0t(x, y, *, t, w=1.0):
+    return 1.25 + 0.5 * np.cos(w * t) * np.sin(x) * np.sin(y)
+
+
+def v0t(x, y, z, a=1.0):
+    return np.stack([a + 0.2 * np.cos(y), a + 0.2 * np.sin(x), 0.5 + 0.0 * z + 0.0 * x], axis=1)
+
+
+def s1t(x, y, z, *, t, w=2.0):
+    return 1.25 + 0.5 * np.cos(w * t)
+
+
+TWINS = {"g0": "g0t", "g0t": "g0", "h0": "h0t", "h0t": "h0", "v0": "v0t", "v0t": "v0", "s1": "s1t", "s1t": "s1"}
+FUNCS = {f.__name__: f for f in (g0, g1, h0, h1, v0, v1, s0, s1, s2, g0t, h0t, v0t, s1t)}
+STATIC = {"2d": ["g0", "g1", "g0t"], "3d": ["v0", "v1", "v0t"]}
+TIMED = {"2d": ["h0", "h1", "h0t"], "3d": ["s0", "s1", "s2", "s1t"]}
 KWARGS = {"g0": {"a": [0.5, 1.0, 2.0]}, "g1": {"a": [0.5, 1.5], "b": [0.5, 2.0]}, "h0": {"w": [1.0, 3.0]},
           "h1": {"tau": [0.5, 1.0]}, "v0": {"a": [0.5, 1.0, 2.0]}, "v1": {"b": [1.0, 4.0]},
-          "s0": {"tau": [0.5, 1.0]}, "s1": {"w": [2.0, 5.0]}, "s2": {"w": [1.0, 3.0]}}
+          "s0": {"tau": [0.5, 1.0]}, "s1": {"w": [2.0, 5.0]}, "s2": {"w": [1.0, 3.0]},
+          "g0t": {"a": [0.5, 1.0, 2.0]}, "h0t": {"w": [1.0, 3.0]}, "v0t": {"a": [0.5, 1.0, 2.0]}, "s1t": {"w": [2.0, 5.0]}}
 NUMBERS = [2, 3, -2, -1, 1, 0.5, 1.5, -0.25, 2.5, 10, 0.1]
 EXPONENTS = [2, 3, -1, -2, 0.5, 1.5, 0, 1]
 
@@ -242,6 +262,10 @@ def mutate(tree, seed):
         k = sorted(node["kw"])[0]
         node["kw"][k] = node["kw"][k] + 0.125
         return t, f"kwarg {k} at {'/'.join(path)}"
+    if node["f"] in TWINS and (seed // 3) % 2 == 0:
+        # the twin leaf: same bytecode and constants, same kwargs, other functions called
+        node["f"] = TWINS[node["f"]]
+        return t, f"leaf function (twin with identical bytecode) at {'/'.join(path)}"
     pool = [n for group in (STATIC, TIMED) for n in group["2d" if node["f"] in STATIC["2d"] + TIMED["2d"] else "3d"]]
     same_kind = [n for n in pool if n != node["f"] and ((n in TIMED["2d"] + TIMED["3d"]) == (node["f"] in TIMED["2d"] + TIMED["3d"]))]
     node["f"] = same_kind[0]
